@@ -996,11 +996,17 @@ func (f *frame) doBuiltin(v *ssa.Call, b *ssa.Builtin, st *State, reach string) 
 		}
 		if _, ok := x.typ.Underlying().(*types.Map); ok {
 			e.setMapLen(st, x.term, e.idxLit(0))
+			e.mapClear(st, x)
 		}
 	case "delete":
 		m := f.val(args[0])
 		n := e.declare("maplen", e.idxSort())
 		e.assume(reach, fmt.Sprintf("(and %s %s)", e.idxLe(e.idxLit(0), n), e.idxLe(n, e.mapLen(st, m.term))))
+		if present, _, ok := e.mapGet(st, m, f.val(args[1]).term); ok {
+			old := e.mapLen(st, m.term)
+			e.assume(reach, fmt.Sprintf("(= %s (ite %s %s %s))", n, present, e.idxSub(old, e.idxLit(1)), old))
+			e.mapStore(st, m, f.val(args[1]).term, "", false)
+		}
 		e.setMapLen(st, m.term, n)
 	case "print", "println":
 	case "ssa:wrapnilchk":
